@@ -30,7 +30,7 @@ func newExec(p *Program, fc *FuncContract) *Exec {
 	x := &Exec{prog: p, b: b, so: NewSorts(b, fp), fp: fp, safety: fc.Safety, rootC: fc,
 		initHeaps: map[string]*smt.Term{}, heapSorts: map[string]string{}, strLits: map[string]*smt.Term{},
 		Assumed: map[string]bool{}, oblNames: map[string]int{}, ufDecl: map[string]bool{}, maxInline: 8, defUnroll: 4,
-		rangeOf: map[*ssa.Range]types.Type{}}
+		rangeOf: map[*ssa.Range]types.Type{}, exprTypes: map[Expr]types.Type{}}
 	if v, ok := fc.Opts["unroll"]; ok {
 		fmt.Sscanf(v, "%d", &x.defUnroll)
 	}
@@ -108,6 +108,11 @@ func (p *Program) VerifyFunc(fc *FuncContract) (res *FuncResult) {
 	}
 	fr.params = vars
 	fr.entry = st.clone()
+	ri := &rootInfo{vars: vars, pkg: fnPkg(f), fn: f, fc: fc, entry: fr.entry}
+	for _, prm := range f.Params {
+		ri.names = append(ri.names, prm.Name())
+	}
+	x.rootInfo = ri
 	x.stack = []*ssa.Function{f}
 	ce := &CEnv{x: x, fr: fr, st: fr.entry, old: fr.entry, vars: vars, guard: x.b.True, fc: fc}
 	x.evalLets(ce, fc)
@@ -196,6 +201,11 @@ func (p *Program) VerifyLemma(fc *FuncContract) (res *FuncResult) {
 		vars[prm.Name] = v
 	}
 	st := newState()
+	ri := &rootInfo{vars: vars, pkg: pkg, fc: fc, entry: st.clone()}
+	for _, prm := range fc.Params {
+		ri.names = append(ri.names, prm.Name)
+	}
+	x.rootInfo = ri
 	ce := &CEnv{x: x, st: st, old: st, vars: vars, guard: x.b.True, fc: fc, pkg: pkg}
 	x.evalLets(ce, fc)
 	for _, r := range fc.Requires {
@@ -257,3 +267,6 @@ func (x *Exec) markOld(t *smt.Term) {
 	x.oldSet[t.ID] = true
 	x.axiom(x.b.Cmp("<", t, x.b.Const("alloc0", "Int")))
 }
+
+// Builder exposes the SMT builder of the run (for replay queries).
+func (x *Exec) Builder() *smt.Builder { return x.b }
